@@ -117,6 +117,13 @@ func runUndelegate(ctx *action.Context, tx action.RawTx) (bool, action.Response)
 	}
 
 	undelegateCoin := ud.Amount.ToCoin(ctx.Currencies)
+	// the amount must be a valid (known currency, non-negative) OLT amount, as for a delegation
+	if !undelegateCoin.IsValid() {
+		return helpers.LogAndReturnFalse(ctx.Logger, action.ErrInvalidAmount, ud.Tags(), errors.New("Coin is not valid"))
+	}
+	if undelegateCoin.Currency.Name != "OLT" {
+		return helpers.LogAndReturnFalse(ctx.Logger, action.ErrInvalidCurrency, ud.Tags(), errors.New("currency is not OLT"))
+	}
 	// cut the amount from active store
 	remainCoin, err := delegationCoin.Minus(undelegateCoin)
 	if err != nil {
